@@ -5,7 +5,8 @@
    is error propagation: commitPlan_body succeeds only if every nested INSERT and every encoding
    succeeded (SqliteProofs.commitPlan_body_inv), so a failure anywhere reaches [txn]. *)
 From Coercion.Base Require Import Plan.
-From Coercion.Store Require Import Tree Rows Spec SqliteModel SqliteRep SqliteRefine SqliteTheorems.
+From Coercion.Store Require Import Tree Rows Spec SqliteModel SqliteRep SqliteRefine SqliteTheorems
+     CosmosModel CosmosRep CosmosTheorems.
 
 (* On any database with distinct primary keys, Create either fails and leaves the database as it was,
    or succeeds, and then: the plan is read back whole; the database is the old one plus rows that all
@@ -23,7 +24,7 @@ Theorem c14_create_atomic :
       /\ (ok = true ->
           (pln_dom req_ok att_ok p -> SqliteModel.read dec_req dec_att (sp_id p) d' = Some p)
           /\ (exists rs, d' = d ++ rs /\ forall r, In r rs -> row_plan r = sp_id p)
-          /\ pln_encodes enc_req enc_att p = true /\ exists_plan (sp_id p) d = false /\ uid_nil (sp_id p) = false).
+          /\ pln_encodes enc_req enc_att p = true /\ SqliteModel.exists_plan (sp_id p) d = false /\ uid_nil (sp_id p) = false).
 Proof. exact c14_create_atomic_lemma. Qed.
 Print Assumptions c14_create_atomic.
 
@@ -68,3 +69,76 @@ Theorem c14_delete_exact :
                                        = SqliteModel.read dec_req dec_att id' (SqliteModel.run enc_req dec_req enc_att dec_att ops []))).
 Proof. exact c14_delete_exact_lemma. Qed.
 Print Assumptions c14_delete_exact.
+
+(* ---- cosmosdb ----
+   Create = Exists, planToItems (nothing is written if anything cannot be encoded), ONE transactional
+   batch on the plan partition, a re-read, then a second batch on the search partition. On every
+   reachable container and for every plan of the domain: Create fails and changes nothing, or succeeds
+   and then the plan is read back whole, has its search entry, the items of every other partition are
+   untouched and every other id reads as before. *)
+Theorem c14_create_atomic_cosmos :
+  forall (enc_req : blob -> option code) (dec_req : tok -> code -> option blob)
+         (enc_att : attempt -> option code) (dec_att : tok -> code -> option attempt)
+         (req_ok : tok -> blob -> bool) (att_ok : tok -> attempt -> bool),
+    (forall t b c, req_ok t b = true -> enc_req b = Some c -> dec_req t c = Some b) ->
+    (forall t a c, att_ok t a = true -> enc_att a = Some c -> dec_att t c = Some a) ->
+    forall (ops : list op) (p : spln) (c' : cdb) (ok : bool),
+      cops_ok enc_req enc_att req_ok att_ok [] ops ->
+      cop_ok req_ok att_ok (Spec.run enc_req enc_att ops []) (OCreate p) ->
+      CosmosModel.create enc_req dec_req enc_att dec_att p (CosmosModel.run enc_req dec_req enc_att dec_att ops cempty) = (c', ok) ->
+      (ok = false -> c' = CosmosModel.run enc_req dec_req enc_att dec_att ops cempty)
+      /\ (ok = true ->
+          CosmosModel.read dec_req dec_att (sp_id p) c' = Some p
+          /\ In (sp_id p) (snd c')
+          /\ (forall pid, pid <> sp_id p ->
+                plan_rows pid (fst c') = plan_rows pid (fst (CosmosModel.run enc_req dec_req enc_att dec_att ops cempty)))
+          /\ (forall id, id <> sp_id p ->
+                CosmosModel.read dec_req dec_att id c'
+                = CosmosModel.read dec_req dec_att id (CosmosModel.run enc_req dec_req enc_att dec_att ops cempty))).
+Proof. exact c14_create_cosmos_lemma. Qed.
+Print Assumptions c14_create_atomic_cosmos.
+
+(* The limit of that atomicity, stated and proved rather than hidden: the two batches are not atomic
+   together. If the search batch fails (create_stage 1) although the plan could be created, Create
+   returns an error while the plan is completely stored: it can be read, and it has no search entry
+   (so Search / List do not find it). C14 holds for cosmosdb for the plan partition only. *)
+Theorem c14_cosmos_two_batch_gap :
+  forall (enc_req : blob -> option code) (dec_req : tok -> code -> option blob)
+         (enc_att : attempt -> option code) (dec_att : tok -> code -> option attempt)
+         (req_ok : tok -> blob -> bool) (att_ok : tok -> attempt -> bool),
+    (forall t b c, req_ok t b = true -> enc_req b = Some c -> dec_req t c = Some b) ->
+    (forall t a c, att_ok t a = true -> enc_att a = Some c -> dec_att t c = Some a) ->
+    forall (ops : list op) (p : spln) (s' : store),
+      cops_ok enc_req enc_att req_ok att_ok [] ops ->
+      cop_ok req_ok att_ok (Spec.run enc_req enc_att ops []) (OCreate p) ->
+      Spec.create enc_req enc_att p (Spec.run enc_req enc_att ops []) = (s', true) ->
+      exists c', CosmosModel.create_stage enc_req dec_req enc_att dec_att 1 p (CosmosModel.run enc_req dec_req enc_att dec_att ops cempty) = (c', false)
+                 /\ CosmosModel.read dec_req dec_att (sp_id p) c' = Some p
+                 /\ ~ In (sp_id p) (snd c')
+                 /\ fst c' = crows_of enc_req enc_att s'
+                 /\ snd c' = snd (CosmosModel.run enc_req dec_req enc_att dec_att ops cempty).
+Proof. exact c14_cosmos_create_gap_lemma. Qed.
+Print Assumptions c14_cosmos_two_batch_gap.
+
+Theorem c14_delete_exact_cosmos :
+  forall (enc_req : blob -> option code) (dec_req : tok -> code -> option blob)
+         (enc_att : attempt -> option code) (dec_att : tok -> code -> option attempt)
+         (req_ok : tok -> blob -> bool) (att_ok : tok -> attempt -> bool),
+    (forall t b c, req_ok t b = true -> enc_req b = Some c -> dec_req t c = Some b) ->
+    (forall t a c, att_ok t a = true -> enc_att a = Some c -> dec_att t c = Some a) ->
+    forall (ops : list op) (id : uid) (c' : cdb) (ok : bool),
+      cops_ok enc_req enc_att req_ok att_ok [] ops ->
+      CosmosModel.delete dec_req dec_att id (CosmosModel.run enc_req dec_req enc_att dec_att ops cempty) = (c', ok) ->
+      (ok = false -> c' = CosmosModel.run enc_req dec_req enc_att dec_att ops cempty
+                     /\ CosmosModel.read dec_req dec_att id (CosmosModel.run enc_req dec_req enc_att dec_att ops cempty) = None)
+      /\ (ok = true ->
+          (forall r, In r (fst c') -> row_plan r <> id)
+          /\ ~ In id (snd c')
+          /\ (forall pid, pid <> id ->
+                plan_rows pid (fst c') = plan_rows pid (fst (CosmosModel.run enc_req dec_req enc_att dec_att ops cempty)))
+          /\ CosmosModel.read dec_req dec_att id c' = None
+          /\ (forall id', id' <> id ->
+                CosmosModel.read dec_req dec_att id' c'
+                = CosmosModel.read dec_req dec_att id' (CosmosModel.run enc_req dec_req enc_att dec_att ops cempty))).
+Proof. exact c14_delete_cosmos_lemma. Qed.
+Print Assumptions c14_delete_exact_cosmos.
